@@ -515,18 +515,19 @@ theorem map_sep_roundtrip (t : Str) (h : sepRune ∉ t) : (t.map spaceToSep).map
       · rename_i h'; exact absurd h'.symm h.1
       · rfl
 
-/-- decode of the ids of one token string `p`: either `p` is a token, or it contains no U+2581 and
-    is spelled with byte tokens -/
+/-- decode of the ids of one token string `p`: either `p` is a token (and then must not look like a
+    byte-token literal), or it contains no U+2581 and is spelled with byte tokens -/
 theorem spmToken_decode (V : Vocab) (hwf : V.Wf) (hbt : V.HasByteTokens) (p : Str)
     (hvalid : ∀ r ∈ p, r < 0x110000)
     (hcase : (V.tokId p).isSome = true ∨ sepRune ∉ p)
-    (hnolit : parseByteTok (utf8s (p.map sepToSpace)) = none) :
+    (hnolit : (V.tokId p).isSome = true → parseByteTok (utf8s (p.map sepToSpace)) = none) :
     spmDecode V (spmToken V p) = some (utf8s (p.map sepToSpace)) := by
   unfold spmToken
   split
   · rename_i id hid
     have hs := (hwf _ _ hid).1
-    simp [spmDecode, spmDecodeTok, hs, hnolit]
+    have := hnolit (by simp [hid])
+    simp [spmDecode, spmDecodeTok, hs, this]
   · rename_i hnone
     have hno : sepRune ∉ p := by
       rcases hcase with h | h
@@ -535,10 +536,28 @@ theorem spmToken_decode (V : Vocab) (hwf : V.Wf) (hbt : V.HasByteTokens) (p : St
     rw [map_sepToSpace_id p hno]
     exact spm_fallback V hwf hbt _ (utf8s_lt p hvalid)
 
-/-- no contiguous piece of the text spells a byte-token literal `<0x??>` (6 bytes) -/
-def NoByteLit (s : Str) : Prop := ∀ pre m post, s = pre ++ m ++ post → parseByteTok (utf8s m) = none
+theorem map_space_roundtrip (p : Str) (h : 32 ∉ p) : (p.map sepToSpace).map spaceToSep = p := by
+  induction p with
+  | nil => rfl
+  | cons r p ih =>
+    simp only [List.mem_cons, not_or] at h
+    simp only [List.map_cons, ih h.2]
+    congr 1
+    simp only [spaceToSep, sepToSpace]
+    split
+    · rename_i h'; simp [h']
+    · split
+      · rename_i h'; exact absurd h'.symm h.1
+      · rfl
 
-theorem NoByteLit.infix {s : Str} (h : NoByteLit s) (a t b : Str) (hs : s = a ++ t ++ b) : NoByteLit t := by
+/-- no contiguous piece of the text that IS A TOKEN of the vocabulary (after space -> U+2581) spells a
+    byte-token literal `<0x??>` (6 bytes) -/
+def NoByteLit (V : Vocab) (s : Str) : Prop :=
+  ∀ pre m post, s = pre ++ m ++ post → (V.tokId (m.map spaceToSep)).isSome = true →
+    parseByteTok (utf8s m) = none
+
+theorem NoByteLit.infix {V : Vocab} {s : Str} (h : NoByteLit V s) (a t b : Str) (hs : s = a ++ t ++ b) :
+    NoByteLit V t := by
   intro pre m post ht
   apply h (a ++ pre) m (post ++ b)
   rw [hs, ht]; simp [List.append_assoc]
@@ -555,7 +574,7 @@ theorem spmCfg_ok (V : Vocab) (c : Cand) (l r : Str) (h : (spmCfg V).ok c l r = 
 
 theorem spmParts_decode (V : Vocab) (hwf : V.Wf) (hbt : V.HasByteTokens) (ps : List Part)
     (h : ∀ p ∈ ps, (∀ r ∈ p.runes, r < 0x110000) ∧ ((V.tokId p.runes).isSome = true ∨ sepRune ∉ p.runes) ∧
-      parseByteTok (utf8s (p.runes.map sepToSpace)) = none) :
+      ((V.tokId p.runes).isSome = true → parseByteTok (utf8s (p.runes.map sepToSpace)) = none)) :
     spmDecode V (ps.flatMap fun p => spmToken V p.runes) = some (utf8s ((concatParts ps).map sepToSpace)) := by
   induction ps with
   | nil => rfl
@@ -568,8 +587,8 @@ theorem spmParts_decode (V : Vocab) (hwf : V.Wf) (hbt : V.HasByteTokens) (ps : L
     simp [concatParts, utf8s_append]
 
 theorem spmText_decode (V : Vocab) (hwf : V.Wf) (hbt : V.HasByteTokens)
-    (hsep : (V.tokId [sepRune]).isSome = true) (t : Str)
-    (hvalid : ∀ r ∈ t, r < 0x110000) (hnosep : sepRune ∉ t) (hnolit : NoByteLit t) :
+    (t : Str) (hsep : 32 ∈ t → (V.tokId [sepRune]).isSome = true)
+    (hvalid : ∀ r ∈ t, r < 0x110000) (hnosep : sepRune ∉ t) (hnolit : NoByteLit V t) :
     spmDecode V (spmText V t) = some (utf8s t) := by
   have hback := map_sep_roundtrip t hnosep
   unfold spmText
@@ -577,7 +596,7 @@ theorem spmText_decode (V : Vocab) (hwf : V.Wf) (hbt : V.HasByteTokens)
   split
   · rename_i id hid
     have hs := (hwf _ _ hid).1
-    have : parseByteTok (utf8s t) = none := hnolit [] t [] (by simp)
+    have : parseByteTok (utf8s t) = none := hnolit [] t [] (by simp) (by simp [hid])
     simp [spmDecode, spmDecodeTok, hs, hback, this]
   · rw [spmParts_decode V hwf hbt, mergeAll_concat, hback]
     intro p hp
@@ -592,6 +611,15 @@ theorem spmText_decode (V : Vocab) (hwf : V.Wf) (hbt : V.HasByteTokens)
       intro r hr; rw [hab]; simp [hr]
     have ht : t = a.map sepToSpace ++ p.runes.map sepToSpace ++ b.map sepToSpace := by
       rw [← hback, hab]; simp
+    have h32 : 32 ∉ p.runes := by
+      intro h
+      have := hmem 32 h
+      simp only [List.mem_map] at this
+      obtain ⟨x, _, hx⟩ := this
+      simp only [spaceToSep] at hx
+      split at hx
+      · simp [sepRune] at hx
+      · rename_i hne; exact hne hx
     refine ⟨?_, ?_, ?_⟩
     · intro r hr
       have := hmem r hr
@@ -604,8 +632,18 @@ theorem spmText_decode (V : Vocab) (hwf : V.Wf) (hbt : V.HasByteTokens)
     · rcases hP with h | ⟨r, hr⟩
       · exact Or.inl h
       · by_cases hrs : r = sepRune
-        · left; rw [hr, hrs]; exact hsep
+        · left; rw [hr, hrs]
+          apply hsep
+          have := hmem r (by rw [hr]; simp)
+          simp only [List.mem_map] at this
+          obtain ⟨x, hx, hxr⟩ := this
+          simp only [spaceToSep] at hxr
+          split at hxr
+          · rename_i h32x; rw [← h32x]; exact hx
+          · exact absurd (hxr.trans hrs ▸ hx) hnosep
         · right; rw [hr]; simp; exact fun h => hrs h.symm
-    · exact hnolit _ _ _ ht
+    · intro htok
+      apply hnolit _ _ _ ht
+      rw [map_space_roundtrip _ h32]; exact htok
 
 end OllamaVerif.Tok
